@@ -205,7 +205,7 @@ def generate():
                 "Definition refused_rows : list (string * bool) := [\n  %s].\n"
                 % (";\n  ".join(rows), "; ".join("(%s, %s)" % (k, coq_bool(b)) for k, b in tb["reuse"]), coq_events(tb["order"]),
                    coq_bool(tb["ode_ok"]), ";\n  ".join('("%s", %s)' % (n, coq_bool(b)) for n, b in tb["bad"])))
-    except (Unsupported, minipy._Return) as u:
+    except (Unsupported, minipy._Return, ValueError, TypeError, IndexError, KeyError, AttributeError, AssertionError, RecursionError) as u:
         return (failed("RoutesGen", str(u)) +
                 "From Coq Require Import List String Bool.\nFrom PV Require Import Assembly Routes.\nImport ListNotations.\n"
                 "Definition route_rows : list (string * pkind * outcome) := [].\n"
